@@ -91,6 +91,10 @@ var sweepReader rjson.ValueReader
 var sweepBuf rjson.Buffer
 
 // apiSweep calls every exported function on w under the panic / offset-range monitors.
+// sweepTight turns the destination-capacity menu on for inputs longer than 5 bytes (the pools of
+// hard inputs; the E1 nodes run it on the short inputs only).
+var sweepTight bool
+
 func apiSweep(w []byte) (bad, got string) {
 	var name string
 	chk := func(n string, p int, err error) {
@@ -219,6 +223,24 @@ func apiSweep(w []byte) (bad, got string) {
 		name = "StdLibCompatible*"
 		_ = rjson.StdLibCompatibleString(string(w))
 		_ = rjson.StdLibCompatibleStringBytes(w, nil)
+		// destinations whose spare capacity is just short of / exactly / just above what the call
+		// needs (a write that trusts the input width instead of the output width)
+		name = "destination-capacity"
+		for extra := 0; extra <= 4 && (len(w) <= 5 || sweepTight); extra++ {
+			for _, pre := range []int{0, 2} {
+				for _, base := range []int{0, len(w)} {
+					mk := func() []byte { return append(make([]byte, 0, pre+base+extra), "xy"[:pre]...) }
+					_ = rjson.StdLibCompatibleStringBytes(w, mk())
+					_, p, err = rjson.ReadStringBytes(w, mk())
+					chk("ReadStringBytes(tight destination)", p, err)
+					_, p, err = rjson.UnescapeStringContent(w, mk())
+					chk("UnescapeStringContent(tight destination)", p, err)
+					sb := mk()
+					_, p, err = rjson.ReadString(w, &sb)
+					chk("ReadString(tight scratch)", p, err)
+				}
+			}
+		}
 		_ = rjson.StdLibCompatibleSlice([]interface{}{string(w), []interface{}{string(w)}, map[string]interface{}{string(w): string(w)}})
 		_ = rjson.StdLibCompatibleMap(map[string]interface{}{string(w): []interface{}{string(w)}})
 	})
@@ -379,8 +401,16 @@ func c10(r *eng.Run) {
 			}
 		}
 	}
+	// the shared hard-number / hard-string pools, complete and cut off right after the token
+	for _, n := range hardNumbers() {
+		extra = append(extra, []byte(n), []byte(" "+n), []byte("["+n), []byte(`{"a":`+n+`}`))
+	}
+	for _, hs := range hardStrings() {
+		extra = append(extra, []byte(hs), []byte(hs[:len(hs)-1]), []byte(hs[1:len(hs)-1]), []byte("["+hs+"]"), []byte("{"+hs+":"+hs+"}"))
+	}
 	// every push site of the machines at every stack size up to 70 levels
 	extra = append(extra, depthSiteFamily(70)...)
+	sweepTight = true
 	for _, w := range extra {
 		wc := eng.Exact(w)
 		eng.Beat(wc)
@@ -389,6 +419,7 @@ func c10(r *eng.Run) {
 			r.Violation(eng.Replay{Engine: "api", Entry: bad, Sig: bad, InputB64: wc, Expected: "returns normally with 0<=p<=len when err==nil", Got: got})
 		}
 	}
+	sweepTight = false
 	r.Set("api_sweep_extra_inputs", len(extra))
 	e1Evidence(r, D, K, results...)
 	r.Set("hostile_handler_executions", hostileExecs)
